@@ -142,13 +142,13 @@ def relevant_hyps(hyps, goal, rounds=4, rare=10):
     return [h for h, c in zip(hyps, chosen) if c]
 
 
-def prove_one(hyps, goal, quick, retry=False):
+def prove_one(hyps, goal, quick, retry=False, window=False):
     """returns (status, backend, model|None, solver).
     Budgets are z3 resource limits (deterministic, independent of machine load) with a generous wall-clock backstop."""
     M = 1000000
-    if retry: budgets = [(False, 70 * M, 240000), (True, 40 * M, 120000)]
+    if retry: budgets = [(False, 70 * M, 240000)]      # no MBQI here: with large budgets it has been seen to ignore both limits
     elif quick: budgets = [(False, 5 * M, 20000), (True, 8 * M, 30000)]
-    else: budgets = [(False, 70 * M, 240000), (True, 80 * M, 240000)]
+    else: budgets = [(False, 70 * M, 240000), (True, 20 * M, 120000)]
     last = None
     if len(hyps) > 40:
         # cheap first attempts from subsets of the hypotheses (sound: a proof from fewer hypotheses is a proof)
@@ -182,7 +182,9 @@ def prove_one(hyps, goal, quick, retry=False):
         if r2 == "unsat": return "proved", "cvc5", None, last
     # bounded refutation search (never yields 'proved')
     lens = _collect_len_terms(list(hyps) + [goal])
-    for bound in (2, 3):
+    # counter-model searches only where a counter-model can be replayed on the real code (pure module-level functions);
+    # elsewhere an undischarged obligation is reported as such (and z3 has been seen to ignore its limits in these searches)
+    for bound in ((2, 3) if window else ()):
         s3 = z3.Solver(); s3.set("timeout", 20000); s3.set("rlimit", 6 * M)
         s3.add(*hyps); s3.add(z3.Not(goal)); s3.add(*[l <= bound for l in lens])
         if s3.check() == z3.sat:
@@ -190,6 +192,7 @@ def prove_one(hyps, goal, quick, retry=False):
     # windowed search: integer quantifiers expanded over a small window.  Such a model is only a CANDIDATE (facts outside the
     # window are ignored); it is reported as a counterexample only if its replay on the real code reproduces (runner)
     try:
+        if not window: raise RuntimeError("windowed search only for targets whose counter-models can be replayed")
         bound = 3
         fs = [expand_int_quantifiers(f, range(-1, bound + 3)) for f in list(hyps) + [z3.Not(goal)]]
         s4 = z3.Solver(); s4.set("timeout", 20000); s4.set("rlimit", 6 * M)
@@ -205,7 +208,7 @@ def expand_int_quantifiers(f, window, _cache=None, _budget=None):
     """Quantifiers whose bound variables are all integers become finite conjunctions / disjunctions over `window`."""
     import itertools
     cache = {} if _cache is None else _cache
-    budget = [20000] if _budget is None else _budget
+    budget = [4000] if _budget is None else _budget
     k = f.get_id()
     if k in cache and cache[k][0].eq(f): return cache[k][1]
     if z3.is_quantifier(f) and not f.is_lambda() and all(f.var_sort(i) == z3.IntSort() for i in range(f.num_vars())) \
@@ -315,7 +318,7 @@ def discharge(ob, quick=True, retry=False):
                 if s is not None:
                     backends.add("z3(hint)"); continue
         t_c = time.time()
-        st, be, model, s = prove_one(ob["hyps"], g, quick, retry)
+        st, be, model, s = prove_one(ob["hyps"], g, quick, retry, window=bool(ob.get("replayable")))
         t_c = time.time() - t_c
         if mk and st == "proved" and (t_c > float(mk) or retry):
             hk2 = minimise(ob["hyps"], g, t_c)
